@@ -15,8 +15,9 @@ its reset to ON at the start of every pass and file) x the class of the message 
 
 (M) DiagDest_MC (TLC, all states = all runs): every sequence of <= 3 (thorough 4) of 14 line classes (ok, warn, err, uwarn,
     uerr, ufatal, fwd, undef, listing off|on|noskipped|purecode, lsave, lrestore) x 4 listing destinations x -Werror x
-    -maxerrors {0,2} (DiagDest_MC.cfg, 41 k runs); <= 2 (thorough 3) of 19 classes (+ fatalI, expect, endexpect, open if1,
-    open sec) x -w x -maxerrors {0,1,2} (DiagDest_MC_All.cfg, 16 k); two files (DiagDest_MC_2f.cfg, 3.6 k).  Claims, on
+    -maxerrors {0,2} (DiagDest_MC.cfg, 41 k runs; thorough DiagDest_MC4.cfg: <= 4 of 10 classes); <= 2 (thorough 3) of 19
+    classes (+ fatalI, expect, endexpect, open if1, open sec) x -w x -maxerrors {0,1,2} (DiagDest_MC_All.cfg, 16 k); two
+    files, 7 classes, first <= 2 (3), second 1 line (DiagDest_MC_2f.cfg, 3.6 k).  Claims, on
     the layered fold LOutcome over Driver.tla / Diag.tla: status 0 <=> nothing of class error / fatal emitted on any
     selected channel; kept code file <=> none emitted; fatal <=> 3; summary counters = messages emitted in the last
     pass; NothingLost (no counted message is written nowhere); without -l every message is on the error channel
@@ -40,10 +41,17 @@ its reset to ON at the start of every pass and file) x the class of the message 
     runs; thorough: 120 000 / 60 000 / 40 000 of the deeper configurations (DiagDest_MC4 / _All3 / _2f3).
 Not covered: -t (listing mask), PAGE (page length 0 / width), MACEXP, messages raised inside macro expansions or include
 files while unlisted, -l together with -L on one command line (the later wins), +l in ASCMD, I/O errors of the listing.
-Mutations tried on scratch copies (all compile; quick tier of C02): the seeded change (the `!ListOn` term dropped:
-VIOLATION, see the report of the strengthening round); WrLstLine ignoring ListOn for messages (SPEC-DRIFT only: a
-message shown twice is still one message); `!Fatal` dropped from the listing test (SPEC-DRIFT, the fatal message moves
-into the console listing - still emitted).
+Mutations tried on scratch copies (all compile; this phase alone, quick tier, 6 000 runs):
+  the seeded change (`!ListOn` dropped from the error-channel test)                    126 VIOLATION in ./check C02 --tier quick
+  m3 asmsub.c WrLstLine printing only under LISTING ON (`ListOn != 1` returns)          190 VIOLATION (+ 381 placement drifts):
+       with -l a message inside NOSKIPPED / PURECODE is written nowhere
+  m4 the error channel used only when the listing did not take the message (`strcmp(LstName, "!1") ||` dropped)
+                                                                                       2 294 VIOLATION (-L: channel incomplete)
+  m1 every message also on the error channel (`if (1)`)                                 269 VIOLATION (-l -E !1 only: one stream
+       shows every message twice) + 896 SPEC-DRIFT (other -E: twice on two channels is still one message)
+  m2 `!Fatal` dropped from the listing test (fatal message moves into the console listing)   0 VIOLATION, 241 SPEC-DRIFT -
+       the message is still emitted; not a breach of C02.
+On the unchanged tree: 0 VIOLATION, 0 placement drifts in 6 000 runs (the model's placement is exact).
 """
 import json
 import os
@@ -63,22 +71,52 @@ LISTKINDS = ("listing", "lsave", "lrestore")
 class Handle:
     def __init__(self, tier):
         self.tier = tier
-        self.cfgs = list((QUICK if tier == "quick" else THOROUGH).keys())
+        self.limits = QUICK if tier == "quick" else THOROUGH
+        self.cfgs = list(self.limits.keys())
         self.res = {}
         self.threads = []
 
 
+def _sample(cfg, trs, lim):
+    """the same number of runs per listing destination, seeded"""
+    if lim is None or len(trs) <= lim:
+        return trs
+    by = {}
+    for t in trs:
+        by.setdefault(t["o"]["lm"], []).append(t)
+    out = []
+    for lm in sorted(by):
+        rng("c02/diagdest/%s/%s" % (cfg, lm)).shuffle(by[lm])
+        out += by[lm][:lim // len(by)]
+    return out
+
+
 def _tlc(h, cfg, **kw):
     try:
-        h.res[cfg] = tlc.run("DiagDest_MC", cfg, workers=2, timeout=1500, mem="6g", **kw)
+        r = tlc.run("DiagDest_MC", cfg, workers=2, timeout=1500, mem="6g", **kw)
+        if r.ok and kw.get("collect", True):
+            trs = [b for (tag, b) in r.printed if tag == "TR"]
+            r.navail = len(trs)
+            r.printed = [("TR", t) for t in _sample(cfg, trs, h.limits.get(cfg))]   # (the rest is dropped here: memory)
+        h.res[cfg] = r
     except Exception as ex:          # reported in run()
         h.res[cfg] = ex
 
 
+def _tlc_seq(h, cfgs):
+    for cfg in cfgs:
+        _tlc(h, cfg)
+
+
 def start(tier):
     h = Handle(tier)
-    for cfg in h.cfgs:
-        t = threading.Thread(target=_tlc, args=(h, cfg), daemon=True)
+    if tier == "quick":
+        for cfg in h.cfgs:
+            t = threading.Thread(target=_tlc, args=(h, cfg), daemon=True)
+            t.start()
+            h.threads.append(t)
+    else:                            # the deep configurations one after the other (memory: each prints > 100 k runs)
+        t = threading.Thread(target=_tlc_seq, args=(h, h.cfgs), daemon=True)
         t.start()
         h.threads.append(t)
     t = threading.Thread(target=_tlc, args=(h, "DiagDest_MC_dev.cfg"), kwargs={"collect": False}, daemon=True)
@@ -269,7 +307,6 @@ def run(rep, bld, tier, h=None):
              note="WrErrorString without the `!ListOn` term: NothingLost must fail (-l, LISTING OFF, a diagnostic)")
     if not dev.violation or "NothingLost" not in dev.violation:
         raise CheckError("the deviation model DiagDest_MC_dev.cfg is not refuted: %r" % (dev.violation or "")[:300])
-    limits = QUICK if tier == "quick" else THOROUGH
     jobs = []
     for cfg in h.cfgs:
         r = h.res[cfg]
@@ -279,17 +316,7 @@ def run(rep, bld, tier, h=None):
         trs = [b for (tag, b) in r.printed if tag == "TR"]
         if not trs:
             raise CheckError("DiagDest_MC(%s) printed no runs" % cfg)
-        navail = len(trs)
-        lim = limits[cfg]
-        if lim is not None and len(trs) > lim:
-            # the same number of runs per listing destination, seeded
-            by = {}
-            for t in trs:
-                by.setdefault(t["o"]["lm"], []).append(t)
-            trs = []
-            for lm in sorted(by):
-                rng("c02/diagdest/%s/%s" % (cfg, lm)).shuffle(by[lm])
-                trs += by[lm][:lim // len(by)]
+        navail = getattr(r, "navail", len(trs))
         rep.part("generation_diagdest(%s)" % cfg, behaviours=navail, run=len(trs))
         for i, t in enumerate(trs):
             rr = rng("c02/diagdest/%s/%d" % (cfg, i))
